@@ -120,6 +120,15 @@ Theorem C13_workers_do_not_change_multiset : forall (R : Type) (gen_op : N -> N 
 Proof. exact (@workers_do_not_change_multiset). Qed.
 Print Assumptions C13_workers_do_not_change_multiset.
 
+(* REFUTED without that hypothesis (finding F6: Hypothesis keeps a process-global pool of constants harvested from the local
+   modules in sys.modules; schemathesis imports modules lazily, so what one worker has imported changes what another draws) *)
+Theorem C13_workers_shared_state_refuted :
+  exists (gen : N -> N -> N) (sched sched' : list nat),
+    Permutation sched sched'
+    /\ proj_op 0 (run_shared gen sched 0) <> proj_op 0 (run_shared gen sched' 0).
+Proof. exact workers_shared_state_refuted. Qed.
+Print Assumptions C13_workers_shared_state_refuted.
+
 Theorem C13_one_worker_is_a_schedule : forall (R : Type) (gen_op : N -> N -> list R) ops seed,
   complete (sequential (per_op gen_op ops seed)) (per_op gen_op ops seed) = true.
 Proof. exact (@one_worker_is_a_schedule). Qed.
